@@ -61,6 +61,7 @@ type obResult struct {
 }
 
 type Run struct {
+	aborted bool
 	ID      string
 	Tier    string
 	Seed    int64
@@ -397,8 +398,12 @@ func short(s string, n int) string {
 	return s
 }
 
-func (r *Run) Finish() int {
-	r.Discharge()
+func (r *Run) Finish() int { return r.finish(true) }
+
+func (r *Run) finish(discharge bool) int {
+	if discharge {
+		r.Discharge()
+	}
 	findings := loadFindings(r.Verif)
 	wall := time.Since(r.t0).Seconds()
 	nViol := 0
